@@ -23,6 +23,8 @@ DICT_TEMPLATES = {
     "D": {"method": "AM1", "scf_eps": 1.0e-8, "scf_converger": [1], "UHF": True},
     "E": {"method": "AM1", "scf_eps": 1.0e-8, "scf_converger": [1], "sp2": [True, 1e-5], "scf_backward": 2},
     "F": {"method": "AM1", "scf_eps": 1.0e-8, "scf_converger": [1]},
+    "G": {"method": "AM1", "scf_eps": 1.0e-8, "scf_converger": [1], "dispersion": True},
+    "H": {"method": "AM1", "scf_eps": 1.0e-8, "scf_converger": [1], "dispersion": True},
 }
 # jobs that share dict A but declare their own threshold/backward mode write them into the dict
 # before the call, as a user would (documented keys only)
@@ -36,7 +38,11 @@ JOBS = {
     "uhfD": dict(dict="D", mol="ch3"),
     "sp2E": dict(dict="E", mol="h2o", displace=0.02),
     "mdF": dict(dict="F", mol="h2o", md=True),
+    "dispG": dict(dict="G", mol="h2o_dimer"),
+    "dispH": dict(dict="H", mol="ch4_h2o"),
 }
+scf_driver.MOLS["h2o_dimer"] = ([8, 8, 1, 1, 1, 1], [[0, 0, 0], [3.0, 0.1, 0.2], [0.96, 0, 0], [-0.24, 0.93, 0], [3.9, 0.3, 0.3], [2.8, -0.8, 0.4]], 0, 1)
+scf_driver.MOLS["ch4_h2o"] = ([8, 6, 1, 1, 1, 1, 1, 1], [[3.6, 0.2, 0.1], [0, 0, 0], [4.5, 0.4, 0.2], [3.4, -0.7, 0.3], [0.63, 0.63, 0.63], [-0.63, -0.63, 0.63], [-0.63, 0.63, -0.63], [0.63, -0.63, -0.63]], 0, 1)
 scf_driver.MOLS["nh2rad"] = ([7, 1, 1], [[0, 0, 0], [1.0, 0.2, 0], [-1.0, 0.2, 0]], 0, 1)
 
 DEFAULT_FUNCS = [
